@@ -468,14 +468,22 @@ class World:
         return eval(compile(src(a, self.names), "<c17 ann>", "eval", flags=0, dont_inherit=True), ns)
 
     # ---- chain as the model sees it
+    @staticmethod
+    def model_own(lv):
+        mx = lv.get("mixin")
+        return (list(mx["fields"]) if mx else []) + list(lv["own"])
+
     def chain_sx(self):
         out = []
         for lv in self.spec["levels"]:
-            out.append("(lvl %s (%s) %s %d %s (%s))" % (
+            mx = lv.get("mixin")
+            # non-generic entries of __orig_bases__ before / after the parametrised base
+            plain = " %d %d" % (mx["pos"] == "before", mx["pos"] == "after") if mx else ""
+            out.append("(lvl %s (%s) %s %d %s (%s)%s)" % (
                 esc(lv["name"]), " ".join(esc(p) for p in lv["params"]),
                 pairs_sx(sorted(lv["defaults"].items())),
                 1 if (lv["generic_base"] or (self.spec["style"] == "pep695" and lv["params"])) else 0,
-                pairs_sx(lv["own"]), " ".join(ann_sx(a) for a in lv["base_args"])))
+                pairs_sx(self.model_own(lv)), " ".join(ann_sx(a) for a in lv["base_args"]), plain))
         return "(" + " ".join(out) + ")"
 
     # ---- the monomorphised copy (oracle side)
@@ -486,7 +494,7 @@ class World:
         cur = list(args)
         for lv in levels:
             sigma = dict(zip(lv["params"], cur))
-            per_level.append([(fn, subst(a, sigma, self_to)) for fn, a in lv["own"]])
+            per_level.append([(fn, subst(a, sigma, self_to)) for fn, a in self.model_own(lv)])
             cur = [subst(a, sigma) for a in lv["base_args"]]
         out = []
         for fs in reversed(per_level):
@@ -501,13 +509,15 @@ class World:
         name = "Copy%s_%d" % (self.sfx, len(self.copies))
         fields = self.mono_fields(args)  # Self stays Self: it denotes the copy
         dn = set()
+        conv = {}
         for lv in self.spec["levels"]:
             dn |= set(lv.get("dflt_none", []))
+            conv.update(lv.get("conv", {}))
         deco = {"attrs": "@define\n", "dataclass": "@dataclass\n", "typeddict": ""}[kind]
         body = []
         for fn, a in fields:
-            d = " = None" if fn in dn and kind != "typeddict" else ""
-            body.append("    %s: %s%s" % (fn, src(a, self.names), d))
+            # the copy is written without generic aliases: `Alias[args]` is replaced by its substituted value
+            body.append(field_line(fn, expand_aliases(a), self.names, kind, fn in dn, conv.get(fn)))
         code = deco + "class %s%s:\n%s\n" % (name, "(TypedDict)" if kind == "typeddict" else "",
                                                "\n".join(body) if body else "    pass")
         ns = dict(self.ns)
@@ -572,6 +582,15 @@ def occurrence(rng, v, allow_self=False, pep604_bad=False):
         ("dict-list", lambda: APP("dict", LF("str"), APP("list", T))),
         ("union3", lambda: APP("Union", T, LF("None"))),
         ("alias", lambda: APP("A", T)),
+        ("alias-permuted", lambda: APP("R", T, LF("str"))),           # dict[str, T]
+        ("alias-permuted-key", lambda: APP("R", LF("int"), T)),       # dict[T, int]
+        ("alias-unused-param", lambda: APP("Q", LF("int"), T)),       # list[T]
+        ("alias-only-unused", lambda: APP("Q", T, LF("int"))),        # list[int]: T only at the unused position
+        ("list-alias-permuted", lambda: APP("list", APP("R", T, LF("str")))),
+        ("set", lambda: APP("set", T)),
+        ("frozenset", lambda: APP("frozenset", T)),
+        ("optional-list", lambda: OPT(APP("list", T))),
+        ("optional-set", lambda: OPT(APP("set", T))),
         ("concrete", lambda: LF(rng.choice(SCALARS))),
         ("concrete-generic", lambda: APP("In", LF("int"))),
         ("pep604-closed", lambda: PU(LF("int"), LF("None"))),
@@ -624,13 +643,21 @@ def gen_spec(rng, shape=None):
                     nm, a = "optional-self", OPT(SELF)
             else:
                 nm, a = occurrence(rng, v, allow_self=allow_self and i == n - 1, pep604_bad=bad and i == 0)
+            if kind == "typeddict" and not has_self(a) and rng.random() < 0.25:
+                nm, a = "notrequired-" + nm, APP("NotRequired", a)
             out.append(("f%d" % fcount[0], a))
             shapes.append(nm)
         return out, shapes
 
     def level(name, params, own, base_args=(), generic_base=True, defaults=None):
-        return {"name": name, "params": list(params), "defaults": dict(defaults or {}), "generic_base": generic_base,
-                "own": own, "base_args": list(base_args), "dflt_none": []}
+        lv = {"name": name, "params": list(params), "defaults": dict(defaults or {}), "generic_base": generic_base,
+              "own": own, "base_args": list(base_args), "dflt_none": [], "conv": {}, "mixin": None}
+        if kind == "attrs":
+            # attrs field converters (tagging / identity): the hook of the SUBSTITUTED field type must still run before them
+            for fn, _ in own:
+                if rng.random() < 0.2:
+                    lv["conv"][fn] = rng.choice(["tag", "id"])
+        return lv
 
     occ = []
     nparams = rng.choice([1, 1, 2, 2, 3])
@@ -703,6 +730,14 @@ def gen_spec(rng, shape=None):
         target = "bare"
     else:
         raise ValueError(shape)
+    # multiple inheritance: a plain (non-generic) mixin before / after the parametrised base (or `Generic[...]`)
+    for i, lv in enumerate(levels):
+        if rng.random() < (0.3 if i == 0 else 0.1):
+            mx = {"pos": rng.choice(["before", "before", "after"]), "fields": []}
+            if kind != "typeddict" and mx["pos"] == "before" and rng.random() < 0.5:
+                mx["fields"] = [("mx%d" % i, LF(rng.choice(SCALARS)))]
+            lv["mixin"] = mx
+            occ.append("mixin-" + mx["pos"] + ("-fields" if mx["fields"] else ""))
     # trailing Optional fields of the head class may get `= None` (exercises the templates' optional-argument loop)
     head = levels[0]
     if kind != "typeddict":
